@@ -80,8 +80,10 @@ func (o *Op) Line() string {
 			parts = append(parts, hs(f.Name), f.Rule.Line())
 		}
 		return strings.Join(parts, " ")
-	case "delete", "list", "get", "keys", "gc":
+	case "delete", "list", "get", "keys", "gc", "trygc":
 		return "bt " + o.Kind + " " + hs(o.Name)
+	case "idle":
+		return fmt.Sprintf("bt idle %s %d", hs(o.Name), o.N)
 	case "modify":
 		parts := []string{"bt modify", hs(o.Name), fmt.Sprint(len(o.Mods))}
 		for _, m := range o.Mods {
@@ -683,6 +685,18 @@ func (e *Env) Exec(cop core.Op) (resp string) {
 		return "st " + strings.Join(flags, " ")
 	case "gc":
 		if !e.svc.ForceGC(o.Name) {
+			return "err notfound"
+		}
+		return "ok"
+	case "idle":
+		// N nanoseconds pass for this table (its activity stamps are real time)
+		if !e.svc.Idle(o.Name, time.Duration(o.N)) {
+			return "err notfound"
+		}
+		return "ok"
+	case "trygc":
+		// the background loop's pass: only a table written and then left alone is collected
+		if !e.svc.TryGC(o.Name) {
 			return "err notfound"
 		}
 		return "ok"
